@@ -8,6 +8,7 @@ reactor's pending delayed calls of the client are compared with the model's time
 Afkak.Monitor.C11 is evaluated on the real trace.
 """
 from harness.lib import client_common as CC
+from harness.lib import client_compose as XC
 from harness.props import c07
 
 COMPONENTS = ["client"]
@@ -26,6 +27,9 @@ def run(ctx, res):
                 "non-trivial = a scenario in which the clock advanced and at least one broker request was cancelled (timeout or cancel); distinct by content hash.")
     c07.run_corpus(ctx, res, ["c11-", "net-"], "c11", "C11")
     c07.net_scenarios(ctx, res, ctx.scale(2500, 200000), "c11")
+    # the same stack, recorded as network-level events with the observations at BOTH boundaries, against the COMPOSED
+    # model (client model x one broker-client model per instance, lean/Afkak/ClientCompose.lean)
+    XC.stage(ctx, res, ctx.scale(350, 20000), "c11", corpus_prefixes=["c11-"])
 
 
 def search(ctx, res, broken):
@@ -34,4 +38,5 @@ def search(ctx, res, broken):
 
 
 def replay(ctx, data):
-    return c07.replay_net(ctx, data, "C11", "c11")
+    rc = c07.replay_net(ctx, data, "C11", "c11")
+    return XC.replay(ctx, data) or rc
